@@ -1,4 +1,6 @@
-(* C06 proof scripts, part 2: the lock automaton over arbitrary histories. *)
+(* C06 proof scripts, part 2: the lock automaton over arbitrary histories.
+   Follows the repairs e967622 (PGPKey.unlock passes over key material that is not protected, on entry and in the finally
+   block) and a3ce830 (a refused protect leaves the key unchanged). *)
 From Coq Require Import ZArith List Bool Lia ZifyBool.
 Import ListNotations.
 Require Import PV.Lib.Bytes PV.Lib.BytesLemmas PV.Model.Wire PV.Model.KeyProtect PV.Proofs.KeyProtect_lemmas.
@@ -23,14 +25,16 @@ Lemma clear_locked_id c : all_zero c = true -> clear c = c.
 Proof. destruct c as [b f ch]. unfold all_zero, clear. cbn [p_fields p_blob p_chk]. intros H. rewrite (zeros_id f H). reflexivity. Qed.
 Lemma map_clear_all_zero k : forallb all_zero (map clear k) = true.
 Proof. induction k; [reflexivity|]. cbn [map forallb]. rewrite all_zero_clear. exact IHk. Qed.
-Lemma map_clear_id k : forallb all_zero k = true -> map clear k = k.
-Proof.
-  induction k as [|c k IH]; [reflexivity|]. cbn [forallb map]. intros H. apply andb_true_iff in H. destruct H as [Hc Hk].
-  rewrite (clear_locked_id c Hc), (IH Hk). reflexivity.
-Qed.
 
 Lemma relock_blob c : p_blob (relock c) = p_blob c.
 Proof. unfold relock. destruct (protected c); reflexivity. Qed.
+(* key material that is not protected is left alone *)
+Lemma relock_unprot c : protected c = false -> relock c = c.
+Proof. unfold relock. intros ->. reflexivity. Qed.
+Lemma relock_prot c : protected c = true -> relock c = clear c.
+Proof. unfold relock. intros ->. reflexivity. Qed.
+Lemma relock_spec c : (protected c = true -> relock c = clear c /\ all_zero (relock c) = true) /\ (protected c = false -> relock c = c).
+Proof. split; [intros H; split; [apply relock_prot; exact H | rewrite (relock_prot c H); apply all_zero_clear] | apply relock_unprot]. Qed.
 
 Lemma Forall2_imp {A B} (P Q : A -> B -> Prop) l l' : (forall a b, P a b -> Q a b) -> Forall2 P l l' -> Forall2 Q l l'.
 Proof. intros H F. induction F; constructor; auto. Qed.
@@ -48,6 +52,22 @@ Proof.
   - rewrite all_zero_clear. apply orb_true_r.
   - rewrite E. reflexivity.
 Qed.
+Lemma relock_id c : locked_or_unprot c = true -> relock c = c.
+Proof.
+  unfold relock, locked_or_unprot. destruct (protected c); cbn [negb orb]; intros H; [apply clear_locked_id; exact H | reflexivity].
+Qed.
+Lemma map_relock_id k : forallb locked_or_unprot k = true -> map relock k = k.
+Proof.
+  induction k as [|c k IH]; [reflexivity|]. cbn [forallb map]. intros H. apply andb_true_iff in H. destruct H as [Hc Hk].
+  rewrite (relock_id c Hc), (IH Hk). reflexivity.
+Qed.
+Lemma lou_view k : forallb locked_or_unprot k = true ->
+  forall c, In c k -> protected c = true -> all_zero c = true /\ exists b, view c = Locked b.
+Proof.
+  intros H c Hin Hp. rewrite forallb_forall in H. specialize (H c Hin). unfold locked_or_unprot in H. rewrite Hp in H.
+  cbn [negb orb] in H. split; [exact H|]. unfold view. unfold protected in Hp. destruct (p_blob c) as [b|]; [|discriminate].
+  rewrite H. exists b. reflexivity.
+Qed.
 
 Lemma private_op_state st b i : fst (private_op st b i) = st.
 Proof.
@@ -64,11 +84,31 @@ Proof.
 Qed.
 
 Definition exit_op (o : op) : Prop := o = OExit \/ o = ORaiseInScope.
+(* what the body of an unlock scope may do without opening or closing a scope -- including add_subkey *)
 Definition scope_neutral (o : op) : bool :=
-  match o with OProtect _ _ _ _ _ | OSign _ | ODecrypt _ | OExport => true | _ => false end.
+  match o with OProtect _ _ _ _ _ | OSign _ | ODecrypt _ | OExport | OAddSub _ _ => true | _ => false end.
 Definition open_scope (st : kst) : bool := existsb (fun b => b) (k_scopes st).
 (* no real unlock scope open  =>  every protected packet is locked *)
 Definition inv (st : kst) : bool := open_scope st || forallb locked_or_unprot (k_pkts st).
+
+(* operations that neither create an at-rest form nor attach a packet *)
+Definition keeps_pkts (o : op) : bool := match o with OProtect _ _ _ _ _ | OAddSub _ _ => false | _ => true end.
+(* c' is c up to the secret fields of PROTECTED key material: same at-rest form, and identical when c is not protected *)
+Definition same_unprot (c c' : pkt) : Prop := p_blob c' = p_blob c /\ (protected c = false -> c' = c).
+
+Lemma same_unprot_refl k : Forall2 same_unprot k k.
+Proof. induction k; constructor; [split; auto | assumption]. Qed.
+Lemma same_unprot_trans k1 k2 : Forall2 same_unprot k1 k2 -> forall k3, Forall2 same_unprot k2 k3 -> Forall2 same_unprot k1 k3.
+Proof.
+  induction 1 as [|x y l1 l2 [B1 U1] _ IH]; intros k3 H2; inversion H2 as [|y' z l2' l3 [B2 U2] Hr]; subst; constructor.
+  - split; [congruence|]. intros Hp. assert (E := U1 Hp). subst y. exact (U2 Hp).
+  - apply IH. exact Hr.
+Qed.
+Lemma relock_same k : Forall2 same_unprot k (map relock k).
+Proof.
+  induction k as [|c k IH]; cbn [map]; constructor; [|exact IH].
+  split; [apply relock_blob | intros Hp; apply relock_unprot; exact Hp].
+Qed.
 
 Section Auto.
   Variable cfb_enc cfb_dec : Z -> bytes -> bytes -> bytes -> bytes.
@@ -90,30 +130,35 @@ Section Auto.
   Lemma run_cons o r st : RUN (o :: r) st = RUN r (fst (STEP st o)).
   Proof. reflexivity. Qed.
 
+  Lemma lou_added k ms chk : forallb locked_or_unprot (k ++ [{| p_blob := None; p_fields := ms; p_chk := chk |}]) = forallb locked_or_unprot k.
+  Proof. rewrite forallb_app. cbn [forallb]. change (locked_or_unprot {| p_blob := None; p_fields := ms; p_chk := chk |}) with true. rewrite !andb_true_r. reflexivity. Qed.
+
   (* ---------- the invariant over arbitrary histories ---------- *)
   Lemma inv_step st o : inv st = true -> inv (fst (STEP st o)) = true.
   Proof.
     destruct st as [k sc]. unfold inv, open_scope. cbn [k_pkts k_scopes]. intros H.
     destruct o; unfold step; cbn [k_pkts k_scopes].
     - destruct (primary_protected k && negb (primary_unlocked k)); cbn [fst k_pkts k_scopes]; [exact H|].
+      destruct (can_encrypt alg); cbn [fst k_pkts k_scopes]; [|exact H].
       rewrite (all_zero_locked _ (protect_pkts_zero pass alg halg count k rnd)). apply orb_true_r.
     - destruct (negb (primary_protected k)); cbn [fst k_pkts k_scopes].
       + cbn [existsb]. exact H.
       + destruct (ENTER pass k); cbn [fst k_pkts k_scopes].
-        * rewrite (all_zero_locked _ (map_clear_all_zero k)). apply orb_true_r.
+        * rewrite map_relock_locked. apply orb_true_r.
         * reflexivity.
     - destruct sc as [|[|] sc]; cbn [fst k_pkts k_scopes].
       + exact H.
-      + rewrite (all_zero_locked _ (map_clear_all_zero k)). apply orb_true_r.
+      + rewrite map_relock_locked. apply orb_true_r.
       + exact H.
     - destruct sc as [|[|] sc]; cbn [fst k_pkts k_scopes].
       + exact H.
-      + rewrite (all_zero_locked _ (map_clear_all_zero k)). apply orb_true_r.
+      + rewrite map_relock_locked. apply orb_true_r.
       + exact H.
     - rewrite private_op_state. exact H.
     - rewrite private_op_state. exact H.
     - exact H.
     - cbn [fst k_pkts k_scopes existsb]. apply map_relock_locked.
+    - cbn [fst k_pkts k_scopes]. rewrite lou_added. exact H.
   Qed.
 
   Lemma inv_run ops : forall st, inv st = true -> inv (RUN ops st) = true.
@@ -124,62 +169,76 @@ Section Auto.
   Lemma inv_locked st : inv st = true -> open_scope st = false ->
     forall c, In c (k_pkts st) -> protected c = true -> all_zero c = true /\ exists b, view c = Locked b.
   Proof.
-    unfold inv. intros H Ho c Hin Hp. rewrite Ho in H. cbn [orb] in H.
-    rewrite forallb_forall in H. specialize (H c Hin). unfold locked_or_unprot in H. rewrite Hp in H. cbn in H.
-    split; [exact H|]. unfold view. unfold protected in Hp. destruct (p_blob c) as [b|]; [|discriminate].
-    rewrite H. exists b. reflexivity.
+    unfold inv. intros H Ho. rewrite Ho in H. cbn [orb] in H. apply lou_view. exact H.
   Qed.
 
-  (* ---------- every exit of a real unlock scope clears ---------- *)
+  (* ---------- every exit of a real unlock scope clears the protected key material, and only that ---------- *)
   Lemma exit_clears st o s : exit_op o -> k_scopes st = true :: s ->
-    fst (STEP st o) = {| k_pkts := map clear (k_pkts st); k_scopes := s |}.
+    fst (STEP st o) = {| k_pkts := map relock (k_pkts st); k_scopes := s |}.
   Proof. intros [-> | ->] Hs; unfold step; rewrite Hs; reflexivity. Qed.
 
-  Lemma exit_keeps_zero st o : exit_op o -> forallb all_zero (k_pkts st) = true -> forallb all_zero (k_pkts (fst (STEP st o))) = true.
+  Lemma exit_keeps_lou st o : exit_op o -> forallb locked_or_unprot (k_pkts st) = true ->
+    forallb locked_or_unprot (k_pkts (fst (STEP st o))) = true.
   Proof.
-    intros [-> | ->] H; unfold step; destruct (k_scopes st) as [|[|] s]; cbn [fst k_pkts]; auto using map_clear_all_zero.
+    intros [-> | ->] H; unfold step; destruct (k_scopes st) as [|[|] s]; cbn [fst k_pkts]; auto using map_relock_locked.
   Qed.
 
   Lemma failed_enter_clears st pass kind : primary_protected (k_pkts st) = true -> ENTER pass (k_pkts st) = inl kind ->
-    STEP st (OEnter pass) = ({| k_pkts := map clear (k_pkts st); k_scopes := k_scopes st |}, BRaised kind).
+    STEP st (OEnter pass) = ({| k_pkts := map relock (k_pkts st); k_scopes := k_scopes st |}, BRaised kind).
   Proof. intros Hp He. unfold step. rewrite Hp, He. reflexivity. Qed.
+
+  (* the statements before repair e967622 (every packet cleared; an unprotected packet makes entering raise) no longer hold *)
+  Lemma exit_clears_all_old_refuted : exists st s, k_scopes st = true :: s /\
+    fst (STEP st OExit) <> {| k_pkts := map clear (k_pkts st); k_scopes := s |}.
+  Proof.
+    exists {| k_pkts := [ {| p_blob := Some (BGnu 254 0 1 [] []); p_fields := [0]; p_chk := [] |};
+                          {| p_blob := None; p_fields := [5]; p_chk := [0; 5] |} ]; k_scopes := [true] |}, [].
+    split; [reflexivity|]. cbn. intros H. inversion H.
+  Qed.
+  Lemma enter_unprotected_raises_old_refuted : exists c, p_blob c = None /\ forall pass, ENTER pass [c] <> inl 2.
+  Proof. exists {| p_blob := None; p_fields := [5]; p_chk := [0; 5] |}. split; [reflexivity|]. intros pass. cbn. discriminate. Qed.
+
+  (* key material that is not protected is passed over when entering *)
+  Lemma enter_skips_unprotected pass c r : p_blob c = None ->
+    ENTER pass (c :: r) = match ENTER pass r with inr r' => inr (c :: r') | inl k => inl k end.
+  Proof. intros H. cbn [enter_pkts]. rewrite H. reflexivity. Qed.
 
   Lemma neutral_scopes st o : scope_neutral o = true -> k_scopes (fst (STEP st o)) = k_scopes st.
   Proof.
     destruct o; try discriminate; intros _; unfold step.
-    - destruct (primary_protected (k_pkts st) && negb (primary_unlocked (k_pkts st))); reflexivity.
+    - destruct (primary_protected (k_pkts st) && negb (primary_unlocked (k_pkts st))); [reflexivity|].
+      destruct (can_encrypt alg); reflexivity.
     - rewrite private_op_state. reflexivity.
     - rewrite private_op_state. reflexivity.
     - reflexivity.
+    - reflexivity.
   Qed.
-  Lemma neutral_zero st o : scope_neutral o = true -> forallb all_zero (k_pkts st) = true -> forallb all_zero (k_pkts (fst (STEP st o))) = true.
+  Lemma neutral_lou st o : scope_neutral o = true -> forallb locked_or_unprot (k_pkts st) = true ->
+    forallb locked_or_unprot (k_pkts (fst (STEP st o))) = true.
   Proof.
     destruct o; try discriminate; intros _ H; unfold step.
     - destruct (primary_protected (k_pkts st) && negb (primary_unlocked (k_pkts st))); cbn [fst k_pkts]; [exact H|].
-      apply protect_pkts_zero.
+      destruct (can_encrypt alg); cbn [fst k_pkts]; [|exact H].
+      apply all_zero_locked. apply protect_pkts_zero.
     - rewrite private_op_state. exact H.
     - rewrite private_op_state. exact H.
     - exact H.
+    - cbn [fst k_pkts]. rewrite lou_added. exact H.
   Qed.
   Lemma run_neutral body : forall st, forallb scope_neutral body = true ->
-    k_scopes (RUN body st) = k_scopes st /\ (forallb all_zero (k_pkts st) = true -> forallb all_zero (k_pkts (RUN body st)) = true).
+    k_scopes (RUN body st) = k_scopes st /\
+    (forallb locked_or_unprot (k_pkts st) = true -> forallb locked_or_unprot (k_pkts (RUN body st)) = true).
   Proof.
     induction body as [|o r IH]; intros st H; [split; auto|].
     cbn [forallb] in H. apply andb_true_iff in H. destruct H as [Ho Hr]. rewrite run_cons.
     destruct (IH (fst (STEP st o)) Hr) as [I1 I2]. split.
     - rewrite I1. apply neutral_scopes. exact Ho.
-    - intros Hz. apply I2. apply neutral_zero; assumption.
-  Qed.
-
-  Lemma all_zero_view k : forallb all_zero k = true -> forall c, In c k -> protected c = true -> exists b, view c = Locked b.
-  Proof.
-    intros H c Hin Hp. rewrite forallb_forall in H. specialize (H c Hin). unfold view. unfold protected in Hp.
-    destruct (p_blob c) as [b|]; [|discriminate]. rewrite H. exists b. reflexivity.
+    - intros Hz. apply I2. apply neutral_lou; assumption.
   Qed.
 
   Lemma enter_state st p : primary_protected (k_pkts st) = true ->
     fst (STEP st (OEnter p)) = match ENTER p (k_pkts st) with
-                               | inl _ => {| k_pkts := map clear (k_pkts st); k_scopes := k_scopes st |}
+                               | inl _ => {| k_pkts := map relock (k_pkts st); k_scopes := k_scopes st |}
                                | inr k' => {| k_pkts := k'; k_scopes := true :: k_scopes st |}
                                end.
   Proof. intros Hp. unfold step. rewrite Hp. cbn [negb]. destruct (ENTER p (k_pkts st)); reflexivity. Qed.
@@ -187,32 +246,106 @@ Section Auto.
   Lemma run_one o st : RUN [o] st = fst (STEP st o).
   Proof. reflexivity. Qed.
 
-  (* with key.unlock(p): body ; normal exit or exception -- also when entering fails half-way through the subkeys *)
+  (* with key.unlock(p): body ; normal exit or exception -- also when entering fails half-way through the subkeys.
+     Since e967622 the conclusion speaks about the PROTECTED packets only (an unprotected subkey, e.g. one attached by the
+     body, keeps its secret: [subkey_added_in_scope_survives], [unprotected_untouched]) *)
   Lemma scope_exit_locks st0 p body o : exit_op o -> forallb scope_neutral body = true -> primary_protected (k_pkts st0) = true ->
     let st := RUN (OEnter p :: body ++ [o]) st0 in
-    forallb all_zero (k_pkts st) = true /\
-    (forall c, In c (k_pkts st) -> protected c = true -> exists b, view c = Locked b) /\
+    forallb locked_or_unprot (k_pkts st) = true /\
+    (forall c, In c (k_pkts st) -> protected c = true -> all_zero c = true /\ exists b, view c = Locked b) /\
     (forall k', ENTER p (k_pkts st0) = inr k' -> k_scopes st = k_scopes st0).
   Proof.
     intros Ho Hb Hp. cbv zeta. rewrite run_cons, run_app, run_one, (enter_state st0 p Hp).
     assert (Z : forall s1, s1 = match ENTER p (k_pkts st0) with
-                               | inl _ => {| k_pkts := map clear (k_pkts st0); k_scopes := k_scopes st0 |}
+                               | inl _ => {| k_pkts := map relock (k_pkts st0); k_scopes := k_scopes st0 |}
                                | inr k' => {| k_pkts := k'; k_scopes := true :: k_scopes st0 |}
                                end ->
-                forallb all_zero (k_pkts (fst (STEP (RUN body s1) o))) = true /\
+                forallb locked_or_unprot (k_pkts (fst (STEP (RUN body s1) o))) = true /\
                 (forall k', ENTER p (k_pkts st0) = inr k' -> k_scopes (fst (STEP (RUN body s1) o)) = k_scopes st0)).
     { intros s1 Hs1. destruct (ENTER p (k_pkts st0)) as [kind|k'] eqn:E; subst s1.
       - split; [|discriminate].
-        destruct (run_neutral body {| k_pkts := map clear (k_pkts st0); k_scopes := k_scopes st0 |} Hb) as [_ I2].
-        cbn [k_pkts] in I2. specialize (I2 (map_clear_all_zero _)).
-        apply exit_keeps_zero; assumption.
+        destruct (run_neutral body {| k_pkts := map relock (k_pkts st0); k_scopes := k_scopes st0 |} Hb) as [_ I2].
+        cbn [k_pkts] in I2. specialize (I2 (map_relock_locked _)).
+        apply exit_keeps_lou; assumption.
       - destruct (run_neutral body {| k_pkts := k'; k_scopes := true :: k_scopes st0 |} Hb) as [I1 _].
         cbn [k_scopes] in I1.
         rewrite (exit_clears _ o _ Ho I1). cbn [k_pkts k_scopes].
-        split; [apply map_clear_all_zero | reflexivity]. }
+        split; [apply map_relock_locked | reflexivity]. }
     destruct (Z _ eq_refl) as [Z1 Z2]. split; [exact Z1|]. split; [|exact Z2].
-    apply all_zero_view. exact Z1.
+    apply lou_view. exact Z1.
   Qed.
+
+  (* the witness of e967622: a subkey attached inside the scope is still there, secret integers and all, after the scope *)
+  Lemma subkey_added_in_scope_survives st ms chk o s : exit_op o -> k_scopes st = true :: s ->
+    fst (STEP (fst (STEP st (OAddSub ms chk))) o) =
+    {| k_pkts := map relock (k_pkts st) ++ [{| p_blob := None; p_fields := ms; p_chk := chk |}]; k_scopes := s |}.
+  Proof.
+    intros Ho Hs.
+    change (fst (STEP st (OAddSub ms chk)))
+      with {| k_pkts := k_pkts st ++ [{| p_blob := None; p_fields := ms; p_chk := chk |}]; k_scopes := k_scopes st |}.
+    set (st1 := {| k_pkts := k_pkts st ++ [{| p_blob := None; p_fields := ms; p_chk := chk |}]; k_scopes := k_scopes st |}).
+    assert (Hs1 : k_scopes st1 = true :: s) by exact Hs.
+    rewrite (exit_clears st1 o s Ho Hs1). unfold st1. cbn [k_pkts]. rewrite map_app. reflexivity.
+  Qed.
+
+  (* entering, leaving (normally, by exception, by a failed enter), private operations, export, re-import: key material
+     that is not protected is never touched, and no at-rest form changes *)
+  Lemma enter_same pass : forall k k', ENTER pass k = inr k' -> Forall2 same_unprot k k'.
+  Proof.
+    induction k as [|c k IH]; intros k' H; cbn [enter_pkts] in H.
+    - inversion H. constructor.
+    - destruct (p_blob c) as [bl|] eqn:Eb.
+      + destruct (unprotect_blob cfb_dec sha1 s2k (length (p_fields c)) bl pass); try discriminate.
+        destruct (ENTER pass k) as [?|r'] eqn:Er; [discriminate|]. inversion H; subst.
+        constructor; [|apply IH; reflexivity].
+        split; [cbn [p_blob]; symmetry; exact Eb | unfold protected; rewrite Eb; discriminate].
+      + destruct (ENTER pass k) as [?|r'] eqn:Er; [discriminate|]. inversion H; subst.
+        constructor; [split; auto | apply IH; reflexivity].
+  Qed.
+
+  Lemma step_same st o : keeps_pkts o = true -> Forall2 same_unprot (k_pkts st) (k_pkts (fst (STEP st o))).
+  Proof.
+    destruct o; try discriminate; intros _; unfold step.
+    - destruct (negb (primary_protected (k_pkts st))); cbn [fst k_pkts]; [apply same_unprot_refl|].
+      destruct (ENTER pass (k_pkts st)) as [kind|k'] eqn:E; cbn [fst k_pkts]; [apply relock_same | apply (enter_same pass); exact E].
+    - destruct (k_scopes st) as [|[|] s]; cbn [fst k_pkts]; auto using same_unprot_refl, relock_same.
+    - destruct (k_scopes st) as [|[|] s]; cbn [fst k_pkts]; auto using same_unprot_refl, relock_same.
+    - rewrite private_op_state. apply same_unprot_refl.
+    - rewrite private_op_state. apply same_unprot_refl.
+    - apply same_unprot_refl.
+    - cbn [fst k_pkts]. apply relock_same.
+  Qed.
+
+  Lemma unprotected_untouched ops : forall st, forallb keeps_pkts ops = true ->
+    Forall2 same_unprot (k_pkts st) (k_pkts (RUN ops st)).
+  Proof.
+    induction ops as [|o r IH]; intros st H; [apply same_unprot_refl|].
+    cbn [forallb] in H. apply andb_true_iff in H. destruct H as [Ho Hr]. rewrite run_cons.
+    apply (same_unprot_trans _ _ (step_same st o Ho)). apply IH. exact Hr.
+  Qed.
+
+  (* ---------- a refused protect leaves the key as it was (repair a3ce830) ---------- *)
+  Lemma refused_protect_unchanged st pass alg halg count rnd : can_encrypt alg = false ->
+    fst (STEP st (OProtect pass alg halg count rnd)) = st /\
+    (snd (STEP st (OProtect pass alg halg count rnd)) = BWarned \/ snd (STEP st (OProtect pass alg halg count rnd)) = BRaised 2).
+  Proof.
+    intros Hc. unfold step. rewrite Hc.
+    destruct (primary_protected (k_pkts st) && negb (primary_unlocked (k_pkts st))); split; auto.
+  Qed.
+  (* ... hence every later observation is the one the untouched key gives: same export, same passphrase *)
+  Lemma refused_protect_invisible st pass alg halg count rnd ops : can_encrypt alg = false ->
+    RUN (OProtect pass alg halg count rnd :: ops) st = RUN ops st /\
+    run_obs cfb_enc cfb_dec sha1 s2k ops (fst (STEP st (OProtect pass alg halg count rnd))) = run_obs cfb_enc cfb_dec sha1 s2k ops st.
+  Proof.
+    intros Hc. destruct (refused_protect_unchanged st pass alg halg count rnd Hc) as [E _].
+    rewrite run_cons, E. split; reflexivity.
+  Qed.
+  (* an accepted cipher on a key that is not locked does protect *)
+  Lemma accepted_protect st pass alg halg count rnd : can_encrypt alg = true ->
+    primary_protected (k_pkts st) && negb (primary_unlocked (k_pkts st)) = false ->
+    STEP st (OProtect pass alg halg count rnd) =
+    ({| k_pkts := PROTECT pass alg halg count rnd (k_pkts st); k_scopes := k_scopes st |}, BDone).
+  Proof. intros Hc Hl. unfold step. rewrite Hl, Hc. reflexivity. Qed.
 
   (* ---------- a locked key refuses private operations ---------- *)
   Lemma locked_refuses st c rest i : k_pkts st = c :: rest -> protected c = true -> all_zero c = true -> p_fields c <> [] ->
@@ -239,10 +372,10 @@ Section Auto.
     rewrite (proj2 (unprotect_reject_iff cfb_dec sha1 s2k _ b pass) Hg). reflexivity.
   Qed.
 
-  Lemma wrong_pass_stays_locked st pass kind : primary_protected (k_pkts st) = true -> forallb all_zero (k_pkts st) = true ->
+  Lemma wrong_pass_stays_locked st pass kind : primary_protected (k_pkts st) = true -> forallb locked_or_unprot (k_pkts st) = true ->
     ENTER pass (k_pkts st) = inl kind -> STEP st (OEnter pass) = (st, BRaised kind).
   Proof.
-    intros Hp Hz He. rewrite (failed_enter_clears st pass kind Hp He). rewrite (map_clear_id _ Hz). destruct st; reflexivity.
+    intros Hp Hz He. rewrite (failed_enter_clears st pass kind Hp He). rewrite (map_relock_id _ Hz). destruct st; reflexivity.
   Qed.
 
   (* ---------- the right passphrase restores the secret integers ---------- *)
@@ -259,6 +392,21 @@ Section Auto.
     rewrite zeros_length.
     rewrite (unprotect_std_protect cfb_enc cfb_dec sha1 s2k cfb_inv sha1_len 254 alg 3 halg _ count _ pass (p_fields c) Hc (or_introl eq_refl)).
     rewrite E. eexists. split; [reflexivity|]. cbn [map p_fields p_blob]. rewrite F, B. split; reflexivity.
+  Qed.
+
+  (* a protected primary with subkeys that are not protected (the mixed key of e967622) unlocks: the protected part is
+     restored, the rest is passed over unchanged *)
+  Lemma mixed_key_enters pass alg halg count rnd c : forall subs, wf_mpis (p_fields c) ->
+    Forall (fun s => p_blob s = None) subs ->
+    ENTER pass (protect_pkt cfb_enc sha1 s2k pass alg halg count rnd c :: subs) =
+    inr ({| p_blob := p_blob (protect_pkt cfb_enc sha1 s2k pass alg halg count rnd c); p_fields := p_fields c; p_chk := p_chk c |} :: subs).
+  Proof.
+    intros subs Hc Hs.
+    assert (S : ENTER pass subs = inr subs).
+    { induction Hs as [|s subs Hn _ IH]; [reflexivity|]. rewrite (enter_skips_unprotected pass s subs Hn), IH. reflexivity. }
+    cbn [enter_pkts]. unfold protect_pkt. cbn [p_blob p_fields p_chk unprotect_blob]. rewrite zeros_length.
+    rewrite (unprotect_std_protect cfb_enc cfb_dec sha1 s2k cfb_inv sha1_len 254 alg 3 halg _ count _ pass (p_fields c) Hc (or_introl eq_refl)).
+    rewrite S. reflexivity.
   Qed.
 End Auto.
 
@@ -321,12 +469,7 @@ Section Sym.
   Proof. intros H. induction k; cbn [map]; constructor; auto. Qed.
   Lemma enter_same_blobs pass : forall k k', enter_pkts cfb_dec sha1 s2k pass k = inr k' -> Forall2 (fun c c' => p_blob c' = p_blob c) k k'.
   Proof.
-    induction k as [|c k IH]; intros k' H; cbn [enter_pkts] in H.
-    - inversion H. constructor.
-    - destruct (p_blob c) as [bl|] eqn:Eb; [|discriminate].
-      destruct (unprotect_blob cfb_dec sha1 s2k (length (p_fields c)) bl pass); try discriminate.
-      destruct (enter_pkts cfb_dec sha1 s2k pass k) as [?|r'] eqn:Er; [discriminate|]. inversion H; subst.
-      constructor; [cbn [p_blob]; symmetry; exact Eb | apply IH; reflexivity].
+    intros k k' H. eapply Forall2_imp; [|exact (enter_same cfb_dec sha1 s2k pass k k' H)]. intros a b [E _]. exact E.
   Qed.
   Lemma refl_blobs k : Forall2 (fun c c' : pkt => p_blob c' = p_blob c) k k.
   Proof. induction k; constructor; auto. Qed.
@@ -334,19 +477,21 @@ Section Sym.
   Lemma step_ok st syms o : Forall2 sym_ok (k_pkts st) syms -> Forall2 sym_ok (k_pkts (fst (STEP st o))) (step_sym st syms o).
   Proof.
     intros H. destruct o; unfold step, step_sym.
-    - destruct (primary_protected (k_pkts st) && negb (primary_unlocked (k_pkts st))); cbn [fst k_pkts]; [exact H | apply protect_ok].
+    - destruct (primary_protected (k_pkts st) && negb (primary_unlocked (k_pkts st))); cbn [fst k_pkts]; [exact H|].
+      destruct (can_encrypt alg); cbn [fst k_pkts]; [apply protect_ok | exact H].
     - destruct (negb (primary_protected (k_pkts st))); cbn [fst k_pkts]; [exact H|].
       destruct (enter_pkts cfb_dec sha1 s2k pass (k_pkts st)) as [kind|k'] eqn:E; cbn [fst k_pkts].
-      + apply (same_blobs_ok (k_pkts st)); [apply map_same_blobs; apply clear_blob | exact H].
+      + apply (same_blobs_ok (k_pkts st)); [apply map_same_blobs; apply relock_blob | exact H].
       + apply (same_blobs_ok (k_pkts st)); [apply enter_same_blobs with (pass := pass); exact E | exact H].
     - destruct (k_scopes st) as [|[|] s]; cbn [fst k_pkts]; try exact H.
-      apply (same_blobs_ok (k_pkts st)); [apply map_same_blobs; apply clear_blob | exact H].
+      apply (same_blobs_ok (k_pkts st)); [apply map_same_blobs; apply relock_blob | exact H].
     - destruct (k_scopes st) as [|[|] s]; cbn [fst k_pkts]; try exact H.
-      apply (same_blobs_ok (k_pkts st)); [apply map_same_blobs; apply clear_blob | exact H].
+      apply (same_blobs_ok (k_pkts st)); [apply map_same_blobs; apply relock_blob | exact H].
     - rewrite private_op_state. exact H.
     - rewrite private_op_state. exact H.
     - exact H.
     - cbn [fst k_pkts]. apply (same_blobs_ok (k_pkts st)); [apply map_same_blobs; apply relock_blob | exact H].
+    - cbn [fst k_pkts]. apply Forall2_app; [exact H | apply (init_ok [_])].
   Qed.
 
   Lemma run_sym_ok ops : forall st syms, Forall2 sym_ok (k_pkts st) syms ->
